@@ -682,6 +682,12 @@ def legacy_rules(ctx):
         ctx.check(ok, R + '/%s/fallback-table' % fn, 'T-BRANCHFX', b.name, 'must return &%s when feasible_relaxed is empty and &%s otherwise; found %s' % (when_empty, otherwise, got), b.site(), table=str(got))
 
 
+# "sample sets decoded from messages written by older releases": the field numbers of SampleSet (and of
+# what it contains) are decided by the C07 schema tables — re-decided here for those messages
+RELIES_ON = {'C07': ['C07.history/field/ommx.v1.SampleSet#', 'C07.history/name/ommx.v1.SampleSet', 'C07.rust/field/ommx.v1.SampleSet', 'C07.python/field/ommx.v1.SampleSet',
+                     'C07.history/name/ommx.v1.SampledValues', 'C07.history/name/ommx.v1.SampledConstraint', 'C07.history/name/ommx.v1.SampledDecisionVariable']}
+
+
 def check(ctx):
     min_rules(ctx); best_rules(ctx); pair_rules(ctx); legacy_rules(ctx)
     ctx.floor('C15.min', 7); ctx.floor('C15.best', 15); ctx.floor('C15.pair', 10); ctx.floor('C15.legacy', 2)
